@@ -1,5 +1,5 @@
 (** C15 - module constants are exported with the WGSL type and exact value. *)
-From W2W Require Import Wf C15Spec C15Proof.
+From W2W Require Import Wf Render C15Spec C15Proof IntLit IntLitProof.
 
 (** For every module whose constant initialisers are what naga guarantees ([wf_consts]: a named scalar
     constant is initialised by a literal of its own type), the exported constants are exactly the named
@@ -19,3 +19,32 @@ Example C15_nonvacuous :
   exists out_, gen ex_mod "" None (mkOptions false false false false MVRust) = Ok out_ /\
     o_consts out_ = [mkOutConst "A" PF64 (LF64 4609434218613702656)].
 Proof. split; [reflexivity|]. eexists. split; vm_compute; reflexivity. Qed.
+
+(** Reading direction, for integer and boolean constants: what rustc evaluates the printed tokens to
+    ([Spec/IntLit.v]: an integer literal token is a maximal run of decimal digits followed by one of the suffixes
+    i32 / u32 / i64 / u64, [overflowing_literals] rejects a value that does not fit, a leading [-] negates, [true] /
+    [false] are the booleans). For every literal naga can hold ([lit_in_range]: a Rust value of its own type) the
+    tokens [Render.r_literal] prints evaluate to exactly the WGSL value, with the suffix type - the decimal
+    printing / lexing round trip is the standard library's [NilZero.usu] and [DecimalN.Unsigned.of_to]. Floats
+    are outside this theorem: their tokens are compared by bit pattern (Render.v TF32 / TF64) and evaluated by
+    rustc in the compiled batch. *)
+Theorem C15_literal_tokens_roundtrip : forall l v,
+  lit_in_range l = true -> wgsl_value l = Some v -> eval_const_tokens (r_literal l) = Some v.
+Proof. exact literal_tokens_roundtrip. Qed.
+Print Assumptions C15_literal_tokens_roundtrip.
+
+(** ... lifted to the generator: every exported integer / boolean constant of every accepted module reads back
+    as its value, and the type rustc gives the expression is the declared type of the item. *)
+Theorem C15_tokens_read_back : forall m src inc o out_,
+  consts_in_range m = true -> gen m src inc o = Ok out_ ->
+  forall k, In k (o_consts out_) -> forall v, wgsl_value (k_lit k) = Some v ->
+    eval_const_tokens (r_literal (k_lit k)) = Some v /\
+    match v with RInt p _ => p = k_ty k | RBool _ => k_ty k = PBool end.
+Proof. exact const_tokens_roundtrip. Qed.
+Print Assumptions C15_tokens_read_back.
+
+Example C15_tokens_nonvacuous :
+  eval_const_tokens (r_literal (LI32 (-2147483648))) = Some (RInt PI32 (-2147483648)) /\
+  eval_const_tokens (r_literal (LU64 18446744073709551615)) = Some (RInt PU64 18446744073709551615) /\
+  eval_const_tokens [T "2147483648i32"] = None.
+Proof. repeat split; vm_compute; reflexivity. Qed.
